@@ -1,6 +1,7 @@
 package props
 
 import (
+	"strings"
 	"testing"
 
 	"pgregory.net/rapid"
@@ -35,7 +36,22 @@ func genC06(t *rapid.T) C06Case {
 	o.NoSameName = gate("c07-same-name-init")
 	o.SameNameBareInit = true
 	o.SameNameOutsideInit = true
-	return C06Case{WS: genWorkspace(t, o)}
+	ws := genWorkspace(t, o)
+	// module files: some files start with `local M = {}` and end with `return M` — the same local name
+	// at the same position in several files, each being its file's return value
+	if rapid.IntRange(0, 2).Draw(t, "moduleFiles") == 0 {
+		for i := range ws.Files {
+			txt := "local M = { }\n" + ws.Files[i].Text
+			if !strings.HasSuffix(txt, "\n") {
+				txt += "\n"
+			}
+			txt += "M.x = 1\nreturn M\n"
+			if res := reflua.Parse(txt); res.Verdict == reflua.Valid {
+				ws.Files[i].Text = txt
+			}
+		}
+	}
+	return C06Case{WS: ws}
 }
 
 // globalDefFiles: number of distinct files holding a defining assignment of the global.
